@@ -1,0 +1,29 @@
+//go:build verif
+
+package vaxis
+
+// VerifScreenNext returns a copy of the next-frame cell buffer (what the
+// application has drawn since the last Render), rows of cells.
+func (vx *Vaxis) VerifScreenNext() [][]Cell {
+	vx.mu.Lock()
+	defer vx.mu.Unlock()
+	out := make([][]Cell, len(vx.screenNext.buf))
+	for i, row := range vx.screenNext.buf {
+		out[i] = append([]Cell(nil), row...)
+	}
+	return out
+}
+
+// VerifScreenLast returns a copy of the buffer Vaxis believes the terminal shows.
+func (vx *Vaxis) VerifScreenLast() [][]Cell {
+	vx.mu.Lock()
+	defer vx.mu.Unlock()
+	out := make([][]Cell, len(vx.screenLast.buf))
+	for i, row := range vx.screenLast.buf {
+		out[i] = append([]Cell(nil), row...)
+	}
+	return out
+}
+
+// VerifCellSixel reports the unexported sixel flag of a cell.
+func VerifCellSixel(c Cell) bool { return c.sixel }
